@@ -54,6 +54,7 @@ func runC03(c *Ctx) {
 			g := &generator{rng: rng, p: p, sch: sch, k: defaultKnobs(), now: 0x36000000}
 			g.k.noTimeNoise = true
 			g.k.pNarrow = 0
+			g.k.pTimeBack = 0.4 // "the last message" is not "the newest message"
 			// a time reference, so that compressed-timestamp headers are meaningful
 			s.Def(0, arch, 20, []FieldDef{{253, 4, 0x86}}, nil)
 			s.Data(0, wire(u32le(0x36000000), arch))
@@ -66,7 +67,13 @@ func runC03(c *Ctx) {
 					continue
 				}
 				var fs []FieldDef
+				if tf := p.field(it.m, 253); tf != nil && rng.Intn(4) != 0 {
+					fs = append(fs, g.fieldDefFor(tf)) // most messages carry their timestamp
+				}
 				for _, fi := range rng.Perm(len(pm.Fields)) {
+					if pm.Fields[fi].N == 253 && len(fs) > 0 && fs[0].Num == 253 {
+						continue
+					}
 					if len(fs) < 1+rng.Intn(4) {
 						fs = append(fs, g.fieldDefFor(&pm.Fields[fi]))
 					}
